@@ -7,13 +7,14 @@
 // exact rejection bytes the model predicts.
 //
 //	srv new <nsid hex|-> <secret t|f> <ecs t|f> <ka> <cache t|f>
-//	srv q <entry> <Q> <R>        entry: rawudp rawtcp inline msgdoh msgdoq http sockudp socktcp sockdoq
+//	srv q <entry> <Q> <R>        entry: rawudp rawtcp inline msgdoh msgdoq http httpget sockudp socktcp sockdoq
 //	srv raw <entry> <hex packet> <R>   entry: sockudp socktcp (malformed / rejected packets)
 //	srv stop
 package main
 
 import (
 	"bytes"
+	"encoding/base64"
 	"encoding/binary"
 	"fmt"
 	"io"
@@ -95,7 +96,7 @@ func kindOf(entry string) entryKind {
 		return entryKind{proto: "udp"}
 	case "rawtcp":
 		return entryKind{proto: "tcp"}
-	case "msgdoh", "http":
+	case "msgdoh", "http", "httpget":
 		return entryKind{proto: "doh"}
 	case "msgdoq":
 		return entryKind{proto: "doq"}
@@ -365,6 +366,16 @@ func execSrv(f []string) vlib.Res {
 	case "http":
 		req := httptest.NewRequest(http.MethodPost, "/dns-query", bytes.NewReader(pkt))
 		req.Header.Set("Content-Type", "application/dns-message")
+		req.RemoteAddr = clientIP + ":4242"
+		rec := httptest.NewRecorder()
+		live.Srv.ServeHTTP(rec, req)
+		if rec.Code == 200 {
+			reply = rec.Body.Bytes()
+		} else {
+			extra = fmt.Sprintf(" http=%d", rec.Code)
+		}
+	case "httpget":
+		req := httptest.NewRequest(http.MethodGet, "/dns-query?dns="+base64.RawURLEncoding.EncodeToString(pkt), nil)
 		req.RemoteAddr = clientIP + ":4242"
 		rec := httptest.NewRecorder()
 		live.Srv.ServeHTTP(rec, req)
